@@ -145,7 +145,12 @@ def gen_history(rnd, nops, p_reject=0.12, p_boundary=0.15, flush_every=None, rea
             elif k == 6:
                 ops.append("A %d 18446744073709551615 %s" % (last[0] if last else s.term, hx(rand_payload(rnd))))
             elif k == 0 and s.vote is not None and s.vote > (0, 0):
-                v = (s.vote[0], s.vote[1] - 1) if s.vote[1] > 0 else (s.vote[0] - 1, rnd.randint(0, 9))
+                # votes are partially ordered: a lower term is smaller, the same term with
+                # another candidate is incomparable; both are refused
+                if s.vote[0] > 0 and rnd.random() < 0.5:
+                    v = (s.vote[0] - 1, rnd.randint(0, 9))
+                else:
+                    v = (s.vote[0], s.vote[1] + rnd.choice([1, 2, 7]) if rnd.random() < 0.5 or s.vote[1] == 0 else s.vote[1] - 1)
                 ops.append("V %d %d" % v)
             elif k == 1 and last is not None:
                 # log id not greater than last
@@ -202,8 +207,8 @@ def gen_history(rnd, nops, p_reject=0.12, p_boundary=0.15, flush_every=None, rea
             if rnd.random() < 0.5:
                 s.term += 1
             v = (s.term, rnd.randint(0, 5))
-            if s.vote is not None and v < s.vote:
-                v = (s.vote[0], s.vote[1] + 1)
+            if s.vote is not None and v[0] == s.vote[0]:
+                v = s.vote                      # same term: only the same candidate again is accepted
             s.vote = v
             ops.append("V %d %d" % v)
         elif r < 0.67:
